@@ -28,10 +28,11 @@ type recHost struct {
 	parent *recHost
 	addr   common.Address
 	writes map[common.Address]map[string]*shVal
+	deploy map[common.Address]bool // contracts whose deployment this environment (or a committed sub-environment) asked for
 }
 
 func newRecHost(env *wasm.WasmEnv, parent *recHost, addr common.Address) *recHost {
-	return &recHost{WasmEnv: env, parent: parent, addr: addr, writes: map[common.Address]map[string]*shVal{}}
+	return &recHost{WasmEnv: env, parent: parent, addr: addr, writes: map[common.Address]map[string]*shVal{}, deploy: map[common.Address]bool{}}
 }
 
 func (r *recHost) put(k []byte, v *shVal) {
@@ -65,8 +66,17 @@ func (r *recHost) CreateSubEnv(contract lib.Address, method string, payAmount *b
 	return newRecHost(inner, r, contract), nil
 }
 
+// Deploy is called by the runtime on the sub-environment of a sub-deployment.
+func (r *recHost) Deploy(code []byte) {
+	r.WasmEnv.Deploy(code)
+	r.deploy[r.addr] = true
+}
+
 func (r *recHost) Commit() {
 	if r.parent != nil {
+		for a := range r.deploy {
+			r.parent.deploy[a] = true
+		}
 		for a, m := range r.writes {
 			pm := r.parent.writes[a]
 			if pm == nil {
@@ -91,11 +101,12 @@ type AKV struct {
 
 // WasmShadowResult is what the wasm contract code asked for.
 type WasmShadowResult struct {
-	Ran     bool
-	Ok      bool
-	Err     string
-	GasUsed uint64
-	Writes  []AKV
+	Ran      bool
+	Ok       bool
+	Err      string
+	GasUsed  uint64
+	Writes   []AKV
+	Deployed []common.Address // sub-deployments the code asked for and the runtime committed
 }
 
 // RunWasmShadow executes the wasm contract code of tx through the recording host environment on a
@@ -164,6 +175,10 @@ func (n *Node) RunWasmShadowOn(st *appstate.AppState, hdr *types.Header, tx *typ
 		return
 	}
 	res.Ok = true
+	for a := range rec.deploy {
+		res.Deployed = append(res.Deployed, a)
+	}
+	sort.Slice(res.Deployed, func(i, j int) bool { return string(res.Deployed[i][:]) < string(res.Deployed[j][:]) })
 	for a, m := range rec.writes {
 		for k, v := range m {
 			e := AKV{A: a, K: dg([]byte(k))}
